@@ -1,6 +1,7 @@
 (* C20 — Cron: jobs run exactly at the minutes their spec denotes.  Property theorems only;
    proofs live in Cron/. *)
-From Ergo Require Import Common.Base Cron.Model Cron.Spec Cron.CivilSweep Cron.CivilProofs Cron.Proofs Cron.RunProofs.
+From Ergo Require Import Common.Base Cron.Model Cron.Spec Cron.Grammar Cron.TickSpec Cron.CivilSweep Cron.CivilProofs Cron.Proofs Cron.RunProofs Cron.GrammarProofs Cron.TickProofs.
+From Coq Require Import Permutation.
 Local Open Scope Z_scope.
 
 (* the parser is lexing (regular expressions, Split, Atoi) followed by compilation to masks *)
@@ -86,4 +87,207 @@ Definition add168h_refuted_b : bool :=
   negb (dow_has (ILastW 7) (civil_of (berlin_2024 1711319400) 1711319400)) &&
   (wd7 (civil_of (berlin_2024 1711319400) 1711319400) =? 7).
 Example C20_add168h_refuted : add168h_refuted_b = true.
+Proof. vm_compute. reflexivity. Qed.
+
+(* ================================================================================================== *)
+(* the string level: "accepted iff in the grammar"                                                     *)
+(* The grammar is the printer Grammar.render of concrete syntax trees (five fields separated by white
+   space, comma separated options of the eight shapes, numbers = non-empty digit strings);
+   [denotes s c] := render c = alias s (the string, after the replacement of the four aliases, IS the
+   rendering of c); [abstract c] is the syntax tree (white space and leading zeros erased) and
+   Spec.wf_spec says which trees are specs of the dialect. *)
+
+(* the parser's answer on the rendering of ANY concrete tree: the compiled tree if it is a spec of the
+   dialect, rejection otherwise (out-of-range values, L / dL / d#n / steps in a field that does not have
+   them, reversed ranges, step 0, "*" in a list) *)
+Theorem C20_grammar_complete : forall c s, cwf c = true -> denotes s c ->
+  parse_spec s = if wf_spec (abstract c) then compile_spec (abstract c) else None.
+Proof. exact parse_render. Qed.
+Print Assumptions C20_grammar_complete.
+
+(* compilation is total on the dialect *)
+Theorem C20_grammar_total : forall a, wf_spec a = true -> exists m, compile_spec a = Some m.
+Proof. exact compile_spec_total. Qed.
+Print Assumptions C20_grammar_total.
+
+(* accepted <-> the string denotes a tree of the dialect, and the result is the compilation of that tree *)
+Theorem C20_grammar : forall s m, parse_spec s = Some m <->
+  exists c, cwf c = true /\ denotes s c /\ wf_spec (abstract c) = true /\ compile_spec (abstract c) = Some m.
+Proof. exact parse_iff. Qed.
+Print Assumptions C20_grammar.
+
+(* the tree a string denotes is unique, and it is the one the lexing phase of the parser computes *)
+Theorem C20_grammar_lex : forall c s, cwf c = true -> denotes s c -> wf_spec (abstract c) = true ->
+  lex_spec s = Some (abstract c).
+Proof. exact denotes_lex. Qed.
+Print Assumptions C20_grammar_lex.
+
+(* rejection: a string no concrete tree of the dialect renders to; a wrong number of fields *)
+Theorem C20_grammar_reject : forall s,
+  (forall c, cwf c = true -> denotes s c -> wf_spec (abstract c) = false) -> parse_spec s = None.
+Proof. exact parse_reject_string. Qed.
+Print Assumptions C20_grammar_reject.
+
+Theorem C20_grammar_reject_fields : forall s, length (fields (alias s)) <> 5%nat -> parse_spec s = None.
+Proof. exact parse_reject_fields. Qed.
+Print Assumptions C20_grammar_reject_fields.
+
+(* the malformed classes by name: one option outside the dialect (wf_item false: see C20_reject_classes) or
+   a "*" inside a list makes the parser reject the whole string *)
+Theorem C20_grammar_reject_item : forall c s k it, cwf c = true -> denotes s c ->
+  In it (field_of k (abstract c)) -> wf_item k it = false -> parse_spec s = None.
+Proof. exact parse_reject_item. Qed.
+Print Assumptions C20_grammar_reject_item.
+
+Theorem C20_grammar_reject_star : forall c s k, cwf c = true -> denotes s c ->
+  In IStar (field_of k (abstract c)) -> (1 < length (field_of k (abstract c)))%nat -> parse_spec s = None.
+Proof. exact parse_reject_star. Qed.
+Print Assumptions C20_grammar_reject_star.
+
+(* out-of-range values, reversed ranges, step 0 or too large, L outside the day field, dL / d#n outside the
+   weekday field or with d outside 1..7 / n outside 1..5, */n in the weekday field, a-b/n in month or weekday *)
+Theorem C20_reject_classes : forall k,
+  (forall n, n < fmin k \/ fmax k < n -> wf_item k (INum n) = false) /\
+  (forall a b, a < fmin k \/ fmax k < b \/ b < a -> wf_item k (IRange a b) = false) /\
+  (forall a b s, a < fmin k \/ fmax k < b \/ b < a \/ s < 1 \/ fmax k < s -> wf_item k (IRangeStep a b s) = false) /\
+  (forall s, s < 1 \/ fmax k < s -> wf_item k (IStep s) = false) /\
+  (k <> KDay -> wf_item k ILast = false) /\
+  (forall d, k <> KWDay \/ d < 1 \/ 7 < d -> wf_item k (ILastW d) = false) /\
+  (forall d n, k <> KWDay \/ d < 1 \/ 7 < d \/ n < 1 \/ 5 < n -> wf_item k (INth d n) = false) /\
+  (forall s, wf_item KWDay (IStep s) = false) /\
+  (forall a b s, wf_item KMonth (IRangeStep a b s) = false) /\ (forall a b s, wf_item KWDay (IRangeStep a b s) = false).
+Proof. exact wf_item_classes. Qed.
+Print Assumptions C20_reject_classes.
+
+(* the printer form: every tree of the dialect is printed (decimal, single blanks) to a string the
+   parser accepts, lexes back to the same tree, compiles, and the masks run exactly when the tree matches *)
+Theorem C20_print : forall a, wf_spec a = true ->
+  exists m, parse_spec (print a) = Some m /\ compile_spec a = Some m /\ lex_spec (print a) = Some a /\
+            forall off secs, spec_run m (civil_of off secs) = matches a (civil_of off secs).
+Proof. exact parse_print. Qed.
+Print Assumptions C20_print.
+
+(* end to end: whatever string AddJob accepts denotes a tree of the dialect and IsRunAt of the masks is
+   the crontab rule on that tree, at every instant and offset *)
+Theorem C20_accept_semantics : forall s m, parse_spec s = Some m ->
+  exists c, cwf c = true /\ denotes s c /\ wf_spec (abstract c) = true /\
+            forall off secs, spec_run m (civil_of off secs) = matches (abstract c) (civil_of off secs).
+Proof. exact parse_accept_semantics. Qed.
+Print Assumptions C20_accept_semantics.
+
+(* the aliases *)
+Theorem C20_alias : forall s a,
+  In (s, a) [(s_hourly, tree_hourly); (s_daily, tree_daily); (s_monthly, tree_monthly); (s_weekly, tree_weekly)] ->
+  wf_spec a = true /\ denotes s (canon a) /\ parse_spec s = compile_spec a.
+Proof. exact parse_alias. Qed.
+Print Assumptions C20_alias.
+
+(* instances of the malformed classes (rejected) and of the grammar (accepted; leading zeros, tabs, limits) *)
+Definition reject_examples : list str := [
+  [54;48;32;42;32;42;32;42;32;42] (* "60 * * * *" *);
+  [42;32;50;52;32;42;32;42;32;42] (* "* 24 * * *" *);
+  [42;32;42;32;48;32;42;32;42] (* "* * 0 * *" *);
+  [42;32;42;32;51;50;32;42;32;42] (* "* * 32 * *" *);
+  [42;32;42;32;42;32;49;51;32;42] (* "* * * 13 *" *);
+  [42;32;42;32;42;32;48;32;42] (* "* * * 0 *" *);
+  [42;32;42;32;42;32;42;32;48] (* "* * * * 0" *);
+  [42;32;42;32;42;32;42;32;56] (* "* * * * 8" *);
+  [76;32;42;32;42;32;42;32;42] (* "L * * * *" *);
+  [42;32;76;32;42;32;42;32;42] (* "* L * * *" *);
+  [42;32;42;32;42;32;76;32;42] (* "* * * L *" *);
+  [42;32;42;32;42;32;42;32;76] (* "* * * * L" *);
+  [42;32;42;32;53;76;32;42;32;42] (* "* * 5L * *" *);
+  [42;32;53;76;32;42;32;42;32;42] (* "* 5L * * *" *);
+  [53;45;50;32;42;32;42;32;42;32;42] (* "5-2 * * * *" *);
+  [42;32;42;32;42;32;42;32;53;45;50] (* "* * * * 5-2" *);
+  [42;47;48;32;42;32;42;32;42;32;42] (* "*/0 * * * *" *);
+  [49;45;53;47;48;32;42;32;42;32;42;32;42] (* "1-5/0 * * * *" *);
+  [42;32;42;47;50;52;32;42;32;42;32;42] (* "* */24 * * *" *);
+  [42;32;42;32;42;32;42] (* "* * * *" *);
+  [42;32;42;32;42;32;42;32;42;32;42] (* "* * * * * *" *);
+  [] (* "" *);
+  [64;121;101;97;114;108;121] (* "@yearly" *);
+  [42;32;42;32;42;32;42;32;49;35;54] (* "* * * * 1#6" *);
+  [42;32;42;32;42;32;42;32;49;35;48] (* "* * * * 1#0" *);
+  [42;32;42;32;42;32;42;32;56;35;49] (* "* * * * 8#1" *);
+  [42;32;42;32;42;32;42;32;48;76] (* "* * * * 0L" *);
+  [42;32;42;32;42;32;42;32;42;47;50] (* "* * * * */2" *);
+  [42;32;42;32;42;32;49;45;53;47;50;32;42] (* "* * * 1-5/2 *" *);
+  [42;44;49;32;42;32;42;32;42;32;42] (* "*,1 * * * *" *);
+  [49;44;42;32;42;32;42;32;42;32;42] (* "1,* * * * *" *);
+  [49;44;32;42;32;42;32;42;32;42] (* "1, * * * *" *);
+  [49;44;44;50;32;42;32;42;32;42;32;42] (* "1,,2 * * * *" *);
+  [45;49;32;42;32;42;32;42;32;42] (* "-1 * * * *" *);
+  [43;49;32;42;32;42;32;42;32;42] (* "+1 * * * *" *);
+  [49;45;32;42;32;42;32;42;32;42] (* "1- * * * *" *);
+  [49;45;50;45;32;42;32;42;32;42;32;42] (* "1-2- * * * *" *);
+  [42;47;32;42;32;42;32;42;32;42] (* "*/ * * * *" *);
+  [97;32;42;32;42;32;42;32;42] (* "a * * * *" *);
+  [49;46;53;32;42;32;42;32;42;32;42] (* "1.5 * * * *" *);
+  [42;32;42;32;42;32;42;32;48;49;76] (* "* * * * 01L" *);
+  [42;32;42;32;42;32;42;32;49;35;48;49] (* "* * * * 1#01" *);
+  [57;57;57;57;57;57;57;57;57;57;57;57;57;57;57;57;57;57;57;57;32;42;32;42;32;42;32;42] (* "99999999999999999999 * * * *" *)].
+Definition accept_examples : list str := [
+  [42;32;42;32;42;32;42;32;42] (* "* * * * *" *);
+  [32;48;32;32;48;9;49;32;49;32;49;32] (* " 0  0\t1 1 1 " *);
+  [48;53;57;32;48;50;51;32;48;51;49;32;48;49;50;32;48;55] (* "059 023 031 012 07" *);
+  [42;47;53;57;32;42;47;50;51;32;42;47;51;49;32;42;47;49;50;32;55;76] (* "*/59 */23 */31 */12 7L" *);
+  [48;45;53;57;47;53;57;32;48;45;50;51;47;50;51;32;49;45;51;49;47;51;49;32;49;45;49;50;32;49;45;55] (* "0-59/59 0-23/23 1-31/31 1-12 1-7" *);
+  [49;44;50;44;51;32;52;44;53;32;76;44;49;53;32;50;45;49;50;32;53;76;44;49;35;50;44;55;35;53] (* "1,2,3 4,5 L,15 2-12 5L,1#2,7#5" *);
+  [64;104;111;117;114;108;121] (* "@hourly" *);
+  [64;100;97;105;108;121] (* "@daily" *);
+  [64;109;111;110;116;104;108;121] (* "@monthly" *);
+  [64;119;101;101;107;108;121] (* "@weekly" *);
+  [48;44;48;44;48;32;42;32;76;44;76;32;42;32;49;76;44;49;76] (* "0,0,0 * L,L * 1L,1L" *)].
+Example C20_reject_examples : forallb (fun s => match parse_spec s with None => true | Some _ => false end) reject_examples = true.
+Proof. vm_compute. reflexivity. Qed.
+Example C20_accept_examples :
+  forallb (fun s => match parse_spec s, lex_spec s with Some _, Some a => wf_spec a | _, _ => false end) accept_examples = true.
+Proof. vm_compute. reflexivity. Qed.
+
+(* ================================================================================================== *)
+(* the minute tick over every history                                                                   *)
+(* Model.trace: what a history of AddJob / RemoveJob / EnableJob / DisableJob / tick on the model of
+   node/cron.go shows (result codes; per tick the minute and the jobs whose action it starts).
+   TickSpec.atrace: what it must show, stated on the set of jobs with their enabled flag and on
+   Spec.matches only.  ev_ok: equal result codes; same minute, no job twice, same jobs. *)
+Theorem C20_tick : forall next ops, Forall2 ev_ok (trace (cron_init next) ops) (atrace next [] ops).
+Proof. exact tick_histories. Qed.
+Print Assumptions C20_tick.
+
+(* spelled out: the tick of minute m starts job n iff, after the operations before that tick, a job named n
+   is present, enabled, and its spec matches the wall clock of m in the job's zone; no job twice *)
+Theorem C20_tick_fires : forall next ops m l n, In (EFire m l) (trace (cron_init next) ops) ->
+  exists pre post, ops = pre ++ OTick :: post /\ NoDup l /\
+    (In n l <-> exists a, In a (arun [] pre) /\ a_name a = n /\ a_enabled a = true /\
+                          matches (a_spec a) (civil_of (a_zone a m) m) = true).
+Proof. exact tick_fires. Qed.
+Print Assumptions C20_tick_fires.
+
+(* a disabled or removed job does not fire until EnableJob / AddJob of that name *)
+Theorem C20_tick_quiet : forall next pre o n post, (o = ODisable n \/ o = ORemove n) ->
+  Forall (fun o' => wakes n o' = false) post ->
+  forall m l, In (EFire m l) (trace (run (cron_init next) (pre ++ [o])) post) -> ~ In n l.
+Proof. exact tick_quiet. Qed.
+Print Assumptions C20_tick_quiet.
+
+(* one tick per minute: the ticks of a history run the consecutive minutes next, next+60, ... *)
+Theorem C20_tick_minutes : forall ops c, fire_minutes (trace c ops) = minutes_from (count_ticks ops) (cr_next c).
+Proof. exact tick_minutes. Qed.
+Print Assumptions C20_tick_minutes.
+
+(* non-vacuity: "*/2 * * * *" added at 12:00, ticks of 12:00 and 12:01, disable, tick 12:02, enable twice, tick 12:03 (no match),
+   tick 12:04 (once), remove, tick 12:05, tick 12:06 *)
+Definition hist_spec : str := [42;47;50;32;42;32;42;32;42;32;42].
+Definition hist_ops : list op :=
+  [OAdd 7 hist_spec [] 0; OTick; OTick; ODisable 7; OTick; OEnable 7; OEnable 7; OTick; OTick; ORemove 7; OTick; OTick].
+Definition hist_expected : list ev :=
+  [ERc 0; EFire 1704110400 [7]; EFire 1704110460 []; ERc 0; EFire 1704110520 []; ERc 0; ERc 0; EFire 1704110580 [];
+   EFire 1704110640 [7]; ERc 0; EFire 1704110700 []; EFire 1704110760 []].
+Definition ev_same (e e' : ev) : bool :=
+  match e, e' with ERc a, ERc b => a =? b | EFire m l, EFire m' l' => (m =? m') && zlist_eqb l l' | _, _ => false end.
+Fixpoint evs_same (a b : list ev) : bool :=
+  match a, b with [], [] => true | x :: a', y :: b' => ev_same x y && evs_same a' b' | _, _ => false end.
+Example C20_tick_example :
+  evs_same (trace (cron_init 1704110400) hist_ops) hist_expected && evs_same (atrace 1704110400 [] hist_ops) hist_expected = true.
 Proof. vm_compute. reflexivity. Qed.
